@@ -21,6 +21,7 @@ EXPLANATION = (
     "'0 on every flagged sample' and the taper reach are numeric facts about the cosine window and are NOT decided."
     ' (D6) work arrays allocated before a loop and re-used by every iteration: an iteration that rewrites only part of the buffer does not read beyond the rewritten range (stale rows of the previous channel block). D1 also understands counts accumulated over channel blocks.'
     ' (D1 as built) when the two proportion tests are not combined pairwise the function is evaluated on value terms (E14, sa/arrterm.py: out= / in-place / view semantics): flags must equal (mean_ch(|data| > 0.98 max_voltage) > proportion) | ([mean_ch(|diff(data)|/fs >= v_per_sec), 0] > proportion); a slew test on |data| is reported.'
+    ' (D1 time blocks) when the per-sample fractions are filled block of samples by block, the block that is differentiated must reach one sample past the range it fills; padding every block with a 0 drops the slew across block edges.'
 )
 ASSUMPTIONS = [
     "scipy.signal.windows.cosine is non-negative; scipy.signal.convolve of non-negative inputs is non-negative (model table)",
